@@ -294,6 +294,14 @@ def universe(depth):
         d1.append(Union[a, b])
         d1.append(a | b)
     d1.append(Union[int, str, float])
+    # unions systematically: every 2-member union over eight element types and every 3-member union over six of them (so that
+    # both sides of a union -> union pair can share members, be related by subclassing only, or be disjoint)
+    uel = [int, bool, str, float, object, NoneT, list, list[int]]
+    for a, b in itertools.combinations(uel, 2):
+        d1.append(Union[a, b])
+    for a, b, c in itertools.combinations(uel[:6], 3):
+        d1.append(Union[a, b, c])
+    d1 += [bool | int, int | bool, str | int, bool | int | None]
     d1 += [Annotated[list, "m"], Annotated[dict, "m"]]
     # parameterised generics whose origin classes differ but are related by subclassing (list <: Sequence <: Iterable, dict <: Mapping)
     import collections.abc as cabc
